@@ -35,8 +35,11 @@ structure Obs where
   count : Nat
   /-- order in which unpublished new slots were reported by the pool threads (a permutation) -/
   inFlightOrder : List Nat → List Nat
-  /-- did the `k`-th element of the parallel scoring pass see the cancel flag raised? -/
+  /-- did the `k`-th *published* new item of `process_new_items` see the cancel flag raised? -/
   sawCancel : Nat → Bool
+  /-- was the cancel flag seen raised when the rescoring pass reached its `k`-th match
+      (`take_any_while`: that match and all later ones are left untouched)? -/
+  sawCancelRescore : Nat → Bool := sawCancel
   /-- did the sort observe the cancel flag? (once raised the flag stays raised for the rest of the run) -/
   sortCanceled : Bool
   /-- value of `should_notify` when the run read it -/
@@ -97,11 +100,13 @@ def processNew (w : Worker) (o : Obs) : Worker × Nat :=
   let ms1 := w.hits ++ nowPub.filterMap (fun i => (o.seen0 i).bind (fun it => (score w.pattern it).map (fun s => Match.mk s i)))
   if o.count ≠ w.lastSnapshot then
     let new := (List.range (o.count - w.lastSnapshot)).map (· + w.lastSnapshot)
-    let scored : List Match := new.zipIdx.map (fun (i, pos) =>
+    -- position of each new slot among the published ones (only those reach the cancel check)
+    let pubPos : Nat → Nat := fun i => ((new.filter (fun j => j < i)).filter (fun j => (o.seen1 j).isSome)).length
+    let scored : List Match := new.map (fun i =>
       match o.seen1 i with
       | none => Match.mk 0 PLACE
       | some it =>
-        if o.sawCancel pos then Match.mk 0 i
+        if o.sawCancel (pubPos i) then Match.mk 0 i
         else match score w.pattern it with
           | some s => Match.mk s i
           | none => Match.mk 0 PLACE)
@@ -113,7 +118,7 @@ def processNew (w : Worker) (o : Obs) : Worker × Nat :=
 /-- the rescoring pass over the existing hits (`par_iter_mut().take_any_while(!canceled)`) -/
 def rescore (w : Worker) (o : Obs) : Worker × Nat :=
   let rescored := w.hits.zipIdx.map (fun (m, pos) =>
-    if o.sawCancel pos then m
+    if o.sawCancelRescore pos then m
     else if m.idx = PLACE then m
     else match (o.seen1 m.idx).bind (score w.pattern) with
       | some s => Match.mk s m.idx
@@ -139,7 +144,7 @@ def insertMatch (items : Nat → Option Item) (x : Match) : List Match → List 
 def sortMatches (items : Nat → Option Item) (l : List Match) : List Match := l.foldr (insertMatch len items) []
 
 /-- was the run cancelled? -/
-def Obs.canceled (o : Obs) (n : Nat) : Bool := o.sortCanceled || (List.range n).any o.sawCancel
+def Obs.canceled (o : Obs) (n : Nat) : Bool := o.sortCanceled || (List.range n).any o.sawCancel || (List.range n).any o.sawCancelRescore
 
 /-- the start of `run`: flags, and the reset after a restart -/
 def Worker.begin (w : Worker) (cleared : Bool) : Worker :=
